@@ -13,7 +13,7 @@ META = {
     "level_text": "Bounded symbolic model checking of the ten real conversion functions: every integer (unbounded, symbolic) and every "
                   "string up to 40 characters is covered by CrossHair/z3 to 'Confirmed over all paths'; the functions have no loops, so "
                   "the integer claims need no unwinding bound. Right level because the property is a finite table plus refusal outside it.",
-    "level_text_more": 'Also: every label of every scale offered to each of the 5 scales after having been converted by its own scale (answers must not depend on call history). 12 objects that are not strings are refused by every scale.',
+    "level_text_more": 'Also: every label of every scale offered to each of the 5 scales after having been converted by its own scale (answers must not depend on call history). 12 objects that are not strings are refused by every scale. Rounds 5-6: every symbolic verdict also after a fixed history (all values and labels converted once); two-call claims looped inside the harness over -103..103 and over all 52 label spellings incl. a repeated unknown label.',
     "level_note": "Trusts CrossHair 0.0.110 + z3 and the frozen copy of the STIX 2.1 Appendix A tables in props/h_C20.py; "
                   "message formatting of symbolic values is stubbed to opaque text; non-int numeric inputs are outside the claim.",
     "technique": "CrossHair symbolic execution of the real functions (z3), all paths confirmed; counterexamples replayed natively",
